@@ -254,7 +254,8 @@ impl Prop for C02 {
         let key = hash_of(&(n, &ones));
         let model = SetModel::new(n, ones);
 
-        let sv = build_sparse(n, &model.ones, case.route);
+        let mut sv = build_sparse(n, &model.ones, case.route);
+        crate::model::enable_builtin_supports(&mut sv, case.route / 8, "SparseVector")?;
         rep.class(&format!("route:{}", case.route % NUM_ROUTES));
         // another route must give an equal vector
         let other_route = if case.route % NUM_ROUTES == 0 { 6 } else { 0 };
